@@ -26,6 +26,7 @@ FN_PROPS = [
     (r"call|new|lemma_pair_bimorphism", ["C07"]),
     (r"lemma_setv_\w+|lemma_set_\w+", LAT),
     (r"add|mul|zero|one|lemma_semiring_\w+", ["C09"]),
+    (r"semigroup|monoid|commutative_monoid|group|abelian_group|distributive|semiring|ring|commutative_ring|integral_domain|field", ["C09"]),
 ]
 
 
@@ -88,6 +89,16 @@ VERUS_UNITS["alg_semiring"] = {
     "canaries": [(r"U32WithInfinity::Finite\(a\.min\(b\)\)", "U32WithInfinity::Finite(a.max(b))", "add"),
                  (r"self\.0 = self\.0 && other\.0;", "self.0 = self.0 || other.0;", "mul")],
     "twins": [],
+}
+
+VERUS_UNITS["alg_compose"] = {
+    "template": "contracts/verus/alg_compose.rs.in", "props": ["C09"],
+    "what": "algebra.rs composite law checkers (semigroup .. field): Ok iff every law of the named structure holds, for every carrier type, "
+            "N and closure, proved modularly against the leaf checkers' contracts (assumed here, checked by Kani alg::n1..n3)",
+    "canaries": [(r"monoid\(items, g, one\)\?;", "monoid(items, g, zero.clone())?;", "semiring"),
+                 (r"commutativity\(items, g\)\?;", "commutativity(items, f)?;", "commutative_ring"),
+                 (r"right_distributes\(items, f, g\)\?;", "left_distributes(items, f, g)?;", "distributive")],
+    "twins": ["alg::c1", "alg::c2"],
 }
 
 # ---------------------------------------------------------------------------------------------- Kani
@@ -194,7 +205,7 @@ PROPS = {
 }
 
 PROPS["C09"] = [
-    ("verus", "alg_semiring"),
+    ("verus", "alg_semiring"), ("verus", "alg_compose"),
     ("kani", "vk_lat", ["alg::n1", "alg::n2", "alg::c1", "alg::c2::semigroup_monoid_group_"], ("quick",)),
     ("kani", "vk_lat", ["alg::"], ("thorough",)),
 ]
